@@ -333,6 +333,7 @@ class Check:
             log("%s: %d violation(s) in %d class(es); %.1fs" % (self.pid, len(new), len(seen), wall))
             return 1
         log("%s: ok (%s; states=%d traces=%d evaluations=%d) %.1fs" % (self.pid, self.tier, self.states, self.traces, self.evaluations, wall))
+        shutil.rmtree(os.path.join(WORK, "p%d" % os.getpid()), ignore_errors=True)
         return 0
 
 
